@@ -52,6 +52,7 @@ type Contract struct {
 	Loops       map[int]*LoopSpec
 	Uses        []string // axioms/lemmas to include
 	Trusted     bool     // contract assumed, body not verified (listed)
+	CheckCalls  bool     // trusted, but callee preconditions inside the body are checked
 	Inline      bool     // always inline, never modular
 	Frame       bool     // check stores against modifies (frame obligations)
 	FrameP      []string
@@ -220,7 +221,7 @@ func (cs *ContractSet) loadFile(path string) error {
 
 var keywords = map[string]bool{"callback": true, "func": true, "extern": true, "iface": true, "lemmafn": true, "spec": true, "axiom": true, "lemma": true, "ghost": true, "ghostgroup": true,
 	"requires": true, "ensures": true, "modifies": true, "nopanic": true, "loop": true, "props": true, "results": true,
-	"params": true, "use": true, "decreases": true, "ghostparams": true, "callsite": true, "sets": true, "trusted": true, "pure": true, "inline": true, "frame": true}
+	"params": true, "use": true, "decreases": true, "ghostparams": true, "callsite": true, "sets": true, "trusted": true, "checkcalls": true, "pure": true, "inline": true, "frame": true}
 
 func startsWithKeyword(s string) bool {
 	w, _ := splitWord(s)
@@ -391,6 +392,11 @@ func (cs *ContractSet) addClause(c *Contract, w, rest string, line int, file str
 		c.Uses = append(c.Uses, strings.Fields(strings.ReplaceAll(rest, ",", " "))...)
 	case "trusted":
 		c.Trusted = true
+	case "checkcalls":
+		// trusted contract, but the body is still walked: the preconditions of the functions it calls (and the loop
+		// invariants needed for them) are obligations; its own postconditions and frame stay assumed
+		c.Trusted = true
+		c.CheckCalls = true
 	case "inline":
 		c.Inline = true
 	case "pure":
